@@ -6,13 +6,9 @@
     are of the recognised shape.  Each is decided by computation; when the
     source changes shape the corresponding [Lemma] stops checking. *)
 From Coq Require Import List NArith Bool String.
-From Verif Require Import Lib.Path Caco.Names Caco.NamesProofs Caco.FileSet Gen.CacoConsts.
+From Verif Require Import Lib.Path Caco.Names Caco.NamesProofs Caco.FileSet Caco.NamesGenDefs Gen.CacoConsts.
 Import ListNotations.
 Local Open Scope string_scope.
-
-(** The exclusion lists the model of [listAllFiles] runs with. *)
-Definition gen_excl : excl :=
-  {| skip_dirs := gen_skip_dirs; skip_files := gen_skip_files; skip_suffixes := gen_skip_suffixes |}.
 
 Lemma gen_list_recognised : gen_list_unknown = [].
 Proof. reflexivity. Qed.
@@ -83,6 +79,7 @@ Definition model_resolve_calls : list (string * string * string * string) :=
     ("newFileSet", "makeRelPath", "p", "ignore");
     ("newFileSet", "makeRelPath", "p", "strings.TrimSuffix(sel, ""/**"")");
     ("newFileSet", "makeRelPath", "p", "sel");
+    ("loadNodes", "makeRelPath", """""", "dir");
     ("newSubBuilds", "makeRelPath", "p", "d") ].
 
 Lemma gen_resolve_calls_unchanged : gen_resolve_calls = model_resolve_calls.
